@@ -12,7 +12,7 @@ RULE = ("round trips: every RTP message type the library defines (descriptors re
         "above 255 bytes); decoder: arbitrary byte strings (random, truncated valid encodings, bit flips, length bytes beyond the "
         "input, nested truncation, delimiters, repeated tags) into every one of these types. non-trivial = a value with a field "
         "at an extreme / beyond one fragment / a list of >= 2 elements, or a decoder input that is not a valid encoding")
-EXTRA_FILES = ("Proofs/TlvStructProofs.v", "Gen/RtpGen.v")
+EXTRA_FILES = ("Proofs/TlvStructProofs.v", "Proofs/TlvRoundtrip.v", "Gen/RtpGen.v")
 ASSUMPTIONS = [
     "an absent item and a zero-length item are the same value for a conformant peer (the library writes nothing for an empty string / byte string / nested struct)",
     "struct types are well formed: tags 1..255, distinct within a struct; the element tags of an inline list are disjoint from the tags of its sibling fields; inline list elements have scalar fields only (an inline list of elements with a nested struct makes the decoder loop forever when another field follows — see DESIGN.md)",
@@ -266,6 +266,23 @@ def finding_class(fs, vs):
     return None
 
 
+def in_theorem(fs, vs):
+    """the value class of C17_roundtrip (okvs in coq/Proofs/TlvRoundtrip.v)"""
+    for (tag, k, sub), v in zip(fs, vs):
+        if k == "S":
+            if not in_theorem(sub, v):
+                return False
+        elif k == "L":
+            for e in v:
+                if len(ref_vals(sub, e)) == 0 or not in_theorem(sub, e):
+                    return False
+        elif k == "I":
+            for e in v:
+                if len(ref_vals(sub, e)) == 0 or any(kk in "sy" and len(x) == 0 for (_, kk, _), x in zip(sub, e)):
+                    return False
+    return True
+
+
 # ---------------------------------------------------------------- generation
 def mutate(rng, b):
     b = bytearray(b)
@@ -343,6 +360,8 @@ def nontrivial(c):
 
 def outcome_class(c, obs):
     k = c["kind"].split("/")[0]
+    if k == "rt" and "fs" in c:
+        return c["kind"] + ("/in-theorem-class" if in_theorem(c["fs"], c["vs"]) else "/outside-theorem-class")
     if k == "un":
         d = obs[4:]
         return c["kind"] + ("/err" if d == "err" else "/panic" if d == "panic" else "/value")
